@@ -27,6 +27,47 @@ def gpa_to_au(x):
     return x / consts.RY_BOHR3_TO_GPA
 
 
+def record_stages(settings_path):
+    """Run one Calculator construction with harness-side wrappers on its public stages; -> list of stage names in call order."""
+    import cij.core.calculator as C
+    import cij.core.full_modulus as F
+    import cij.core.tasks as T
+    import cij.core.qha_adapter as Q
+    import warnings
+    events, seen = [], set()
+
+    def once(name):
+        if name not in seen:
+            seen.add(name)
+            events.append({"stage": name})
+
+    def after(cls, meth, name):
+        orig = getattr(cls, meth)
+        def w(self, *a, **k):
+            r = orig(self, *a, **k)
+            once(name)
+            return r
+        setattr(cls, meth, w)
+        return (cls, meth, orig)
+
+    patched = [after(C.Calculator, "_load", "loaded"), after(C.Calculator, "_apply_elastic_constants_symmetry", "filled"),
+               after(C.Calculator, "_interpolate_modes", "interpolated"), after(C.Calculator, "_calculate_pressure_static", "pstatic"),
+               after(F.FullThermalElasticModulus, "get_axial_strains", "strains"), after(T.PhononContributionTaskList, "calculate", "phonon"),
+               after(F.FullThermalElasticModulus, "get_static_modulus", "static"), after(C.Calculator, "_process_cij", "summed"),
+               after(C.Calculator, "_calculate_compliances", "done")]
+    pp = Q.QHAVolumeBaseInterface.pressures
+    Q.QHAVolumeBaseInterface.pressures = property(lambda self: (once("qha"), pp.fget(self))[1])
+    try:
+        with warnings.catch_warnings(), numpy.errstate(all="ignore"):
+            warnings.simplefilter("ignore")
+            C.Calculator(str(settings_path))
+    finally:
+        for cls, meth, orig in patched:
+            setattr(cls, meth, orig)
+        Q.QHAVolumeBaseInterface.pressures = pp
+    return events
+
+
 def pipeline_model(ctx):
     res = must_ok(run_tlc("Pipeline", "Pipeline.cfg", ctx.subdir("tlc_pipe"), workers=1, timeout=120))
     ctx.add_tlc(res)
@@ -74,7 +115,20 @@ def main(ctx, replay=None):
                               {"clause": "completes", "exc": type(ex).__name__})
                 continue
             check_case(ctx, ds, calc, desc, insts)
-        # shared oracle is built lazily inside check_case; taint conformance on two data sets
+        # T: the order in which the real constructor runs its stages is a behaviour of Pipeline.tla (partial order of stages)
+        from cv.trace import validate_trace
+        tr = []
+        for ds, d in datasets[:4]:
+            try:
+                ev = record_stages(d / "settings.yaml")
+            except Exception:
+                continue
+            tr += ([{"stage": "Reset"}] if tr else []) + ev
+        if tr:
+            ok, consumed, _ = validate_trace(ctx, "Trace_Pipeline", "Trace_Pipeline.cfg", tr, name="pipeline")
+            if not ok:
+                ctx.violation(f"the calculation runs stage '{tr[consumed]['stage']}' before what it reads exists (stage order so far: "
+                              f"{[e['stage'] for e in tr[max(0, consumed - 6):consumed + 1]]})", {"trace": tr[:consumed + 1]}, {"clause": "stage_order", "stage": tr[consumed]["stage"]})
         taint(ctx, rng, datasets, prov, wd)
     finally:
         wd.close()
